@@ -325,7 +325,7 @@ func Recv2[T any](ch <-chan T) (T, bool) {
 	return r.Got2()
 }
 
-// Close replaces close(ch). It is not a scheduling point (it never blocks and only releases).
+// Close replaces close(ch).
 func Close[T any](ch chan<- T) {
 	if passthrough {
 		close(ch)
@@ -339,11 +339,15 @@ func Close[T any](ch chan<- T) {
 	if co == nil {
 		HarnessError("close of a channel that was not created by rewritten code")
 	}
-	if co.closed {
-		panic("close of closed channel")
-	}
-	co.closed = true
-	ex.note(ex.cur, kClose, co.obj, 0)
+	// close is not a left-mover (another thread may send on, or poll, the channel): scheduling point
+	t := ex.cur
+	ex.block(&pend{kind: kClose, obj: co.obj, fire: func() {
+		if co.closed {
+			t.panicMsg = "close of closed channel"
+			return
+		}
+		co.closed = true
+	}})
 }
 
 // envSend is used by environment events (timers, fake event sources) to push into a model channel
